@@ -1059,13 +1059,19 @@ namespace Pistache::Http::Experimental
             return Async::Promise<Response>([this, resource = std::move(resource),
                                              request](Async::Resolver& resolve,
                                                       Async::Rejection& reject) {
-                Guard guard(queuesLock);
+                {
+                    Guard guard(queuesLock);
 
-                auto data = std::make_shared<Connection::RequestData>(
-                    std::move(resolve), std::move(reject), std::move(request), nullptr);
-                auto& queue = requestsQueues[std::string(resource.first)];
-                if (!queue.enqueue(data))
-                    data->reject(std::runtime_error("Queue is full"));
+                    auto data = std::make_shared<Connection::RequestData>(
+                        std::move(resolve), std::move(reject), std::move(request), nullptr);
+                    auto& queue = requestsQueues[std::string(resource.first)];
+                    if (!queue.enqueue(data))
+                        data->reject(std::runtime_error("Queue is full"));
+                }
+                // A connection may have been released since pickConnection() found none: the
+                // request that released it saw the queue still empty, and nothing else would
+                // ever look at the queue again.
+                processRequestQueue();
             });
         }
         else
